@@ -4,84 +4,87 @@
     I2F, U2F, MINMAX_NUMERIC with std::max / std::min, COMPARE_NUMERIC(RamFloat, op)) and emitted as the same
     C++ expressions by src/synthesiser/Synthesiser.cpp.
     As in Word32Defs.v a bit pattern is represented by its *signed* reading in [-2^31, 2^31).
-    The arithmetic is Flocq's (version 4.1.0) [BinarySingleNaN] at precision 24, emax 128, rounding to nearest
-    even (the C++ default rounding mode; the programs never change it). C++ does not specify the sign and
-    payload of a NaN *produced* by an arithmetic operation, therefore every NaN result of
-    fadd/fsub/fmul/fdiv/fneg/i2f/u2f is the one canonical quiet NaN [QNAN] = 0x7fc00000 (the correspondence
-    harness canonicalises the NaNs printed by the real code the same way). [fmax]/[fmin] return one of their
-    arguments unchanged (std::max / std::min return a reference to an argument), so there the bits are exact.
+    The arithmetic is the proof-free specification-level arithmetic of Coq's [Floats.SpecFloat]
+    ([SFadd], [SFmul], ... on [spec_float], the reference semantics of Coq's primitive floats) instantiated
+    at precision 24, emax 128, i.e. round to nearest even (the C++ default rounding mode; Souffle never changes
+    it); decoding of the 32 bits is Flocq's (4.1.0) [binary_float_of_bits_aux]. These definitions carry no
+    proof terms, so they compute, extract, and are closed under the global context; Float32Lemmas.v proves
+    that they coincide with Flocq's verified [BinarySingleNaN] operations (hence with rounding of the exact
+    real result).
+    C++ does not specify the sign and payload of a NaN *produced* by an arithmetic operation, therefore every
+    NaN result of fadd/fsub/fmul/fdiv/fneg/i2f/u2f is the one canonical quiet NaN [QNAN] = 0x7fc00000 (the
+    correspondence harness canonicalises the NaNs printed by the real code the same way, sign included).
+    [fmax]/[fmin] return one of their arguments unchanged (std::max / std::min return a reference to an
+    argument), so there the bits are exact.
     [f2i]/[f2u] return [None] exactly where the C++ conversion is undefined ([conv.fpint]: the truncated value
     cannot be represented in the destination type; NaN and infinities).
-    Definitions only; everything computes with [vm_compute] and extracts (binary arithmetic only). *)
-From Coq Require Import ZArith Bool.
-From Flocq Require Import Core IEEE754.BinarySingleNaN IEEE754.Binary IEEE754.Bits.
+    Definitions only. *)
+From Coq Require Import ZArith Bool Floats.SpecFloat.
+From Flocq Require Import IEEE754.BinarySingleNaN IEEE754.Binary IEEE754.Bits.
 From SV Require Word32Defs.
 Local Open Scope Z_scope.
 
-Definition prec32_gt_0 : Prec_gt_0 24 := eq_refl.
-Definition prec32_lt_emax : Prec_lt_emax 24 128 := eq_refl.
-
-(** floats with a single NaN *)
-Definition f32 : Set := BinarySingleNaN.binary_float 24 128.
-
-(** canonical quiet NaN 0x7fc00000 (= [default_nan_pl32] of Flocq's Bits.v) *)
+(** canonical quiet NaN 0x7fc00000 *)
 Definition QNAN : Z := 2143289344.
 
-(** ramBitCast<RamFloat>(RamDomain): decode the 32 bits (sign 1, exponent 8, mantissa 23) *)
-Definition fdec (a : Z) : f32 := B2BSN 24 128 (b32_of_bits (Word32Defs.u a)).
-(** ramBitCast<RamDomain>(RamFloat): encode; a NaN becomes [QNAN] *)
-Definition fenc_u (x : f32) : Z := bits_of_b32 (BSN2B 24 128 default_nan_pl32 x).
-Definition fenc (x : f32) : Z := Word32Defs.wrap (fenc_u x).
+(** ramBitCast<RamFloat>(RamDomain): decode the 32 bits (sign 1, exponent 8, mantissa 23); all NaNs
+    become the single [S754_nan] *)
+Definition sdec (a : Z) : spec_float := FF2SF (binary_float_of_bits_aux 23 8 (Word32Defs.u a)).
 
-Definition f_plus : f32 -> f32 -> f32 := @BinarySingleNaN.Bplus 24 128 prec32_gt_0 prec32_lt_emax mode_NE.
-Definition f_minus : f32 -> f32 -> f32 := @BinarySingleNaN.Bminus 24 128 prec32_gt_0 prec32_lt_emax mode_NE.
-Definition f_mult : f32 -> f32 -> f32 := @BinarySingleNaN.Bmult 24 128 prec32_gt_0 prec32_lt_emax mode_NE.
-Definition f_div : f32 -> f32 -> f32 := @BinarySingleNaN.Bdiv 24 128 prec32_gt_0 prec32_lt_emax mode_NE.
-Definition f_opp : f32 -> f32 := @BinarySingleNaN.Bopp 24 128.
-(** static_cast<float>(integer): round to nearest even *)
-Definition f_of_Z (z : Z) : f32 :=
-  BinarySingleNaN.binary_normalize 24 128 prec32_gt_0 prec32_lt_emax mode_NE z 0 false.
+(** ramBitCast<RamDomain>(RamFloat): encode (mirrors Flocq's [bits_of_binary_float 23 8]); NaN -> [QNAN] *)
+Definition senc_u (x : spec_float) : Z :=
+  match x with
+  | S754_zero s => join_bits 23 8 s 0 0
+  | S754_infinity s => join_bits 23 8 s 0 255
+  | S754_nan => QNAN
+  | S754_finite s mx ex =>
+      let m := Zpos mx - 2 ^ 23 in
+      if 0 <=? m then join_bits 23 8 s m (ex + 150) else join_bits 23 8 s (Zpos mx) 0
+  end.
+Definition fenc (x : spec_float) : Z := Word32Defs.wrap (senc_u x).
 
 (** arithmetic: FADD FSUB FMUL FDIV (division by zero is defined for floats: inf or NaN) *)
-Definition fadd (a b : Z) : Z := fenc (f_plus (fdec a) (fdec b)).
-Definition fsub (a b : Z) : Z := fenc (f_minus (fdec a) (fdec b)).
-Definition fmul (a b : Z) : Z := fenc (f_mult (fdec a) (fdec b)).
-Definition fdiv (a b : Z) : Z := fenc (f_div (fdec a) (fdec b)).
+Definition fadd (a b : Z) : Z := fenc (SFadd 24 128 (sdec a) (sdec b)).
+Definition fsub (a b : Z) : Z := fenc (SFsub 24 128 (sdec a) (sdec b)).
+Definition fmul (a b : Z) : Z := fenc (SFmul 24 128 (sdec a) (sdec b)).
+Definition fdiv (a b : Z) : Z := fenc (SFdiv 24 128 (sdec a) (sdec b)).
 (** FNEG: ramBitCast(-ramBitCast<RamFloat>(x)) *)
-Definition fneg (a : Z) : Z := fenc (f_opp (fdec a)).
+Definition fneg (a : Z) : Z := fenc (SFopp (sdec a)).
 
 (** comparisons FLT FLE FEQ (IEEE: every comparison with a NaN is false; -0 = +0) *)
-Definition flt (a b : Z) : bool := BinarySingleNaN.Bltb (fdec a) (fdec b).
-Definition fle (a b : Z) : bool := BinarySingleNaN.Bleb (fdec a) (fdec b).
-Definition feq (a b : Z) : bool := BinarySingleNaN.Beqb (fdec a) (fdec b).
+Definition flt (a b : Z) : bool := SFltb (sdec a) (sdec b).
+Definition fle (a b : Z) : bool := SFleb (sdec a) (sdec b).
+Definition feq (a b : Z) : bool := SFeqb (sdec a) (sdec b).
 
 (** FMAX / FMIN: std::max(a,b) = (a < b) ? b : a ; std::min(a,b) = (b < a) ? b : a *)
 Definition fmax (a b : Z) : Z := if flt a b then b else a.
 Definition fmin (a b : Z) : Z := if flt b a then b else a.
 
-(** I2F, U2F: static_cast<RamFloat>(RamSigned / RamUnsigned) *)
-Definition i2f (a : Z) : Z := fenc (f_of_Z a).
-Definition u2f (a : Z) : Z := fenc (f_of_Z (Word32Defs.u a)).
+(** I2F, U2F: static_cast<RamFloat>(RamSigned / RamUnsigned): the integer z * 2^0 rounded to nearest even *)
+Definition sf_of_Z (z : Z) : spec_float := SpecFloat.binary_normalize 24 128 z 0 false.
+Definition i2f (a : Z) : Z := fenc (sf_of_Z a).
+Definition u2f (a : Z) : Z := fenc (sf_of_Z (Word32Defs.u a)).
 
 (** truncation toward zero of a finite float; [None] for NaN and infinities *)
-Definition f_trunc (x : f32) : option Z :=
+Definition sf_trunc (x : spec_float) : option Z :=
   match x with
-  | BinarySingleNaN.B754_nan => None
-  | BinarySingleNaN.B754_infinity _ => None
-  | _ => Some (BinarySingleNaN.Btrunc x)
+  | S754_zero _ => Some 0
+  | S754_finite s m e => Some (cond_Zopp s (SFnearbyint_binary_aux 24 mode_ZR s m e))
+  | S754_infinity _ => None
+  | S754_nan => None
   end.
 (** F2I, F2U: static_cast<RamSigned / RamUnsigned>(RamFloat) *)
 Definition f2i (a : Z) : option Z :=
-  match f_trunc (fdec a) with
+  match sf_trunc (sdec a) with
   | Some t => Word32Defs.chk t
   | None => None
   end.
 Definition f2u (a : Z) : option Z :=
-  match f_trunc (fdec a) with
+  match sf_trunc (sdec a) with
   | Some t => if (0 <=? t) && (t <? 2 ^ 32) then Some (Word32Defs.wrap t) else None
   | None => None
   end.
 
-(** specification-side helper: the real value denoted by a bit pattern (0 for NaN/inf) and classification *)
-Definition f_is_nan (a : Z) : bool := BinarySingleNaN.is_nan (fdec a).
-Definition f_is_finite (a : Z) : bool := BinarySingleNaN.is_finite (fdec a).
+(** classification of a bit pattern *)
+Definition f_is_nan (a : Z) : bool := is_nan_SF (sdec a).
+Definition f_is_finite (a : Z) : bool := is_finite_SF (sdec a).
